@@ -227,7 +227,7 @@ theorem tables_parts {T : Tables} (h : TablesOK T = true) :
     keepOK T = true ∧ mutatorsOK T = true ∧ enterOK T = true ∧ exitOK T = true ∧ subOK T = true ∧ readOK T = true ∧
       slotsOK T = true := by
   simp only [TablesOK, Bool.and_eq_true] at h
-  exact ⟨h.1.1.1.1.1.1, h.1.1.1.1.1.2, h.1.1.1.1.2, h.1.1.1.2, h.1.1.2, h.1.2, h.2⟩
+  exact ⟨h.1.1.1.1.1.1.1, h.1.1.1.1.1.1.2, h.1.1.1.1.1.2, h.1.1.1.1.2, h.1.1.1.2, h.1.1.2, h.1.2⟩
 
 theorem mem_of_get {w : World} {i : Nat} {o : Obj} (h : w.objs[i]? = some o) : o ∈ w.objs := List.mem_of_getElem? h
 
@@ -502,4 +502,417 @@ theorem step_inv {T : Tables} (hT : TablesOK T = true) {w : World} {op : Op} {ob
                           (by decide) rfl (winv_vecs _ hw) ho (by simp) herr
               | false => exact runFn_inv hK hM ⟨"MoleculeContainer.union", [("copy", false), ("remap", false)], false, false⟩
                           (by decide) rfl (winv_vecs _ hw) ho (by simp) herr
+/-! ## no AttributeError -/
+
+/-- an accepted event never raises AttributeError (slot never assigned) and never hits a hole of the model;
+the only Python exception left is the KeyError of `calc_implicit` on a pending atom that no longer exists -/
+theorem stepEv_err {T : Tables} {A A' : Abs} {cx : Ctx} {opt : Bool} {c c' : Cfg} {e : Ev} {er : Err}
+    (h : Gamma A c.o) (ha : absEv T A e = some A') (ho : opt = true → optOK e = true)
+    (hs : stepEv T cx opt c e = .err c' er) : er = .key := by
+  cases e with
+  | edit => simp [stepEv] at hs
+  | call f args => simp [absEv] at ha
+  | flushAll => simp [stepEv] at hs
+  | flush a b =>
+    simp only [absEv] at ha
+    simp only [stepEv] at hs
+    cases ha' : flagBool a <;> cases hb' : flagBool b <;> simp [ha', hb'] at ha hs
+    cases opt with
+    | true => simp [optOK] at ho
+    | false => simp at hs
+  | pop k => simp only [stepEv] at hs; split at hs <;> cases hs
+  | dictSet k => simp [stepEv] at hs
+  | readC k => simp [stepEv] at hs
+  | changedAdd =>
+    simp only [absEv] at ha
+    split at ha <;> cases ha
+    rename_i hc
+    have := h.chg hc
+    simp only [stepEv] at hs
+    split at hs
+    · cases hs
+    · split at hs
+      · rename_i hn; exact absurd hn this
+      · cases hs
+      · cases hs
+  | changedDiscard =>
+    simp only [absEv] at ha
+    split at ha <;> cases ha
+    rename_i hc
+    have := h.chg hc
+    simp only [stepEv] at hs
+    split at hs
+    · rename_i hn; exact absurd hn this
+    · cases hs
+    · cases hs
+  | changedNone => simp [stepEv] at hs
+  | changedRead =>
+    simp only [absEv] at ha
+    split at ha <;> cases ha
+    rename_i hc
+    have := h.chg hc
+    simp only [stepEv] at hs
+    split at hs
+    · rename_i hn; exact absurd hn this
+    · cases hs
+  | backupRead =>
+    simp only [absEv] at ha
+    split at ha <;> cases ha
+    rename_i hc
+    have hb := h.bk
+    rw [hc] at hb
+    obtain ⟨bk, hb⟩ := hb
+    simp only [stepEv, hb] at hs
+    cases hs
+  | backupCopy a b =>
+    simp only [absEv] at ha
+    simp only [stepEv] at hs
+    cases ha' : flagBool a <;> cases hb' : flagBool b <;> simp [ha', hb'] at ha hs
+  | backupNone => simp [stepEv] at hs
+  | restore slots =>
+    simp only [absEv] at ha
+    split at ha <;> cases ha
+    rename_i hc
+    simp only [Bool.and_eq_true, decide_eq_true_eq] at hc
+    have hb := h.bk
+    rw [hc.1.1.1] at hb
+    obtain ⟨bk, hb⟩ := hb
+    simp only [stepEv, hb] at hs
+    cases hs
+  | hcalc =>
+    simp only [absEv] at ha
+    split at ha <;> cases ha
+    rename_i hc
+    have := h.chg hc
+    simp only [stepEv] at hs
+    split at hs
+    · rename_i hn; exact absurd hn this
+    · split at hs <;> (split at hs <;> first | (cases hs; rfl) | cases hs)
+  | labelsWrite => simp [stepEv] at hs
+  | stereoWrite => simp [stepEv] at hs
+
+theorem interp_err {T : Tables} (hK : keepOK T = true) {cx : Ctx} :
+    ∀ (es : List GEv) (A : Abs) (c : Cfg) (A' : Abs) (c' : Cfg) (er : Err), Gamma A c.o →
+      absRun T cx.skip cx.special es A = some A' → interp T cx es c = .err c' er → er = .key := by
+  intro es
+  induction es with
+  | nil => intro A c A' c' er h ha hi; simp [interp] at hi
+  | cons ge rest ih =>
+    intro A c A' c' er h ha hi
+    simp only [absRun] at ha
+    simp only [interp] at hi
+    cases hm : absGuards cx.skip cx.special A ge.gs with
+    | bad => simp [hm] at ha
+    | skip =>
+      have hg := guards_agree (cx := cx) h ge.gs (by rw [hm]; simp)
+      rw [hm] at hg
+      simp only [hm] at ha
+      cases hd : decideGuards cx c.o ge.gs with
+      | error e => simp [hd, toMode] at hg
+      | ok r =>
+        cases r with
+        | some b => simp [hd, toMode] at hg
+        | none =>
+          simp only [hd] at hi
+          exact ih A c A' c' er h ha hi
+    | run opt =>
+      have hg := guards_agree (cx := cx) h ge.gs (by rw [hm]; simp)
+      rw [hm] at hg
+      simp only [hm] at ha
+      cases hd : decideGuards cx c.o ge.gs with
+      | error e => simp [hd, toMode] at hg
+      | ok r =>
+        cases r with
+        | none => simp [hd, toMode] at hg
+        | some b =>
+          simp [hd, toMode] at hg
+          subst hg
+          simp only [hd] at hi
+          cases b with
+          | false =>
+            simp only at ha
+            cases hae : absEv T A ge.e with
+            | none => simp [hae] at ha
+            | some A1 =>
+              simp only [hae, Option.bind_some] at ha
+              cases hse : stepEv T cx false c ge.e with
+              | err c1 e1 =>
+                simp only [hse] at hi
+                cases hi
+                exact stepEv_err h hae (by simp) hse
+              | ok c1 =>
+                simp only [hse] at hi
+                exact ih A1 c1 A' c' er (stepEv_sound hK h hae hse) ha hi
+          | true =>
+            simp only at ha
+            split at ha
+            · rename_i hok
+              cases hae : absEv T A ge.e with
+              | none => simp [hae] at ha
+              | some A1 =>
+                simp only [hae, Option.bind_some] at ha
+                cases hj : Abs.join A A1 with
+                | none => simp [hj] at ha
+                | some J =>
+                  simp only [hj, Option.bind_some] at ha
+                  cases hse : stepEv T cx true c ge.e with
+                  | err c1 e1 =>
+                    simp only [hse] at hi
+                    cases hi
+                    exact stepEv_err h hae (fun _ => hok) hse
+                  | ok c1 =>
+                    simp only [hse] at hi
+                    exact ih J c1 A' c' er (gamma_join_right hj (stepEv_sound hK h hae hse)) ha hi
+            · cases ha
+/-! ## the abort path -/
+
+theorem abort_interp {T : Tables} {cx : Ctx} (bk : Core) :
+    ∀ (es : List GEv) (r n b : Bool) (c c' : Cfg), abortShape r n b es = true →
+      (b = false → c.o.backup = some (some bk)) → (b = true → c.o.backup = some none) →
+      (r = true → c.o.toCore = bk) → (n = true → c.o.changed = some none) →
+      interp T cx es c = .ok c' →
+      c'.o.toCore = bk ∧ c'.o.changed = some none ∧ c'.o.backup = some none := by
+  intro es
+  induction es with
+  | nil =>
+    intro r n b c c' hs hb0 hb1 hr hn hi
+    simp only [abortShape, Bool.and_eq_true] at hs
+    simp only [interp, Res.ok.injEq] at hi
+    subst hi
+    exact ⟨hr hs.1.1, hn hs.1.2, hb1 hs.2⟩
+  | cons ge rest ih =>
+    intro r n b c c' hs hb0 hb1 hr hn hi
+    simp only [abortShape, Bool.and_eq_true, List.isEmpty_iff] at hs
+    obtain ⟨hgs, hs⟩ := hs
+    simp only [interp, hgs, decideGuards] at hi
+    cases he : ge.e with
+    | restore slots =>
+      simp only [he, Bool.and_eq_true, Bool.not_eq_true', List.all_eq_true] at hs
+      obtain ⟨⟨hbf, hall⟩, hrest⟩ := hs
+      have hbk := hb0 hbf
+      simp only [he, stepEv, hbk] at hi
+      have h1 : slots.contains "_atoms" = true := hall "_atoms" (by simp)
+      have h2 : slots.contains "_bonds" = true := hall "_bonds" (by simp)
+      have h3 : slots.contains "_meta" = true := hall "_meta" (by simp)
+      have h4 : slots.contains "_name" = true := hall "_name" (by simp)
+      have h5 : slots.contains "__dict__" = true := hall "__dict__" (by simp)
+      simp only [h1, h2, h3, h4, h5, if_true] at hi
+      refine ih true n b _ c' hrest ?_ ?_ ?_ ?_ hi
+      · intro _; rfl
+      · intro hb; exact absurd hb (by simp [hbf])
+      · intro _; cases bk; rfl
+      · intro hn'; exact hn hn'
+    | changedNone =>
+      simp only [he] at hs
+      simp only [he, stepEv] at hi
+      refine ih r true b _ c' hs ?_ ?_ ?_ ?_ hi
+      · intro hb; exact hb0 hb
+      · intro hb; exact hb1 hb
+      · intro hr'; exact hr hr'
+      · intro _; rfl
+    | backupRead =>
+      simp only [he, Bool.and_eq_true, Bool.not_eq_true'] at hs
+      have hbk := hb0 hs.1
+      simp only [he, stepEv, hbk] at hi
+      exact ih r n b c c' hs.2 hb0 hb1 hr hn hi
+    | changedRead =>
+      simp only [he] at hs
+      cases hch : c.o.changed with
+      | none => simp [he, stepEv, hch] at hi
+      | some ch =>
+        simp only [he, stepEv, hch] at hi
+        exact ih r n b c c' hs hb0 hb1 hr hn hi
+    | stereoWrite =>
+      simp only [he] at hs
+      simp only [he, stepEv] at hi
+      exact ih r n b c c' hs hb0 hb1 hr hn hi
+    | backupNone =>
+      simp only [he, Bool.and_eq_true, Bool.not_eq_true'] at hs
+      simp only [he, stepEv] at hi
+      refine ih r n true _ c' hs.2 ?_ ?_ ?_ ?_ hi
+      · intro hb; cases hb
+      · intro _; rfl
+      · intro hr'; exact hr (by simpa using hr')
+      · intro hn'; exact hn hn'
+    | edit => simp [he] at hs
+    | call f a => simp [he] at hs
+    | flushAll => simp [he] at hs
+    | flush a b' => simp [he] at hs
+    | pop k => simp [he] at hs
+    | dictSet k => simp [he] at hs
+    | readC k => simp [he] at hs
+    | changedAdd => simp [he] at hs
+    | changedDiscard => simp [he] at hs
+    | backupCopy a b' => simp [he] at hs
+    | hcalc => simp [he] at hs
+    | labelsWrite => simp [he] at hs
+/-! ## frame -/
+
+theorem abort_of_tables {T : Tables} (h : TablesOK T = true) : abortOK T = true := by
+  simp only [TablesOK, Bool.and_eq_true] at h
+  exact h.2
+
+theorem getElem?_setObj_self {w : World} {i : Nat} {o o' : Obj} (v : List (Int × Int)) (h : w.objs[i]? = some o) :
+    (setObj { w with vecs := v } i o').objs[i]? = some o' := by
+  have hlt : i < w.objs.length := by
+    rcases Nat.lt_or_ge i w.objs.length with hl | hl
+    · exact hl
+    · rw [List.getElem?_eq_none hl] at h; cases h
+  simp [setObj, hlt]
+
+theorem getElem?_setObj_ne {w : World} {i j : Nat} {o' : Obj} (v : List (Int × Int)) (h : j ≠ i) :
+    (setObj { w with vecs := v } i o').objs[j]? = w.objs[j]? := by
+  simp [setObj, List.getElem?_set, Ne.symm h]
+
+/-- operations that run a method of object `i` touch no other object -/
+theorem runFn_frame (T : Tables) (w : World) (i : Nat) (o : Obj) (cx : Ctx) (f : String) (env : List (String × Bool))
+    (j : Nat) (h : j ≠ i) : (runFn T w i o cx f env).w.objs[j]? = w.objs[j]? := by
+  unfold runFn
+  split <;> exact getElem?_setObj_ne _ h
+
+theorem runFn_length (T : Tables) (w : World) (i : Nat) (o : Obj) (cx : Ctx) (f : String) (env : List (String × Bool)) :
+    (runFn T w i o cx f env).w.objs.length = w.objs.length := by
+  unfold runFn
+  split <;> simp [setObj]
+
+theorem getElem?_append_lt {α} (l : List α) (x : α) (j : Nat) (h : j < l.length) : (l ++ [x])[j]? = l[j]? := by
+  simp [List.getElem?_append_left h]
+
+/-- **frame**: an operation on object `i` leaves every other existing object exactly as it was (atoms, bonds, cache,
+slots — everything but the shared Vector heap, see `setXY_frame`) -/
+theorem step_frame (T : Tables) (w : World) (op : Op) (obs : List String) (j : Nat) (hj : j ≠ op.target)
+    (hlt : j < w.objs.length) : (step T w op obs).w.objs[j]? = w.objs[j]? := by
+  unfold step
+  cases hget : w.objs[op.target]? with
+  | none => simp only [hget]
+  | some o =>
+    simp only [hget]
+    cases op with
+    | addAtom oi z n skip =>
+      simp only [Op.target] at hj
+      simp only; split
+      · rfl
+      · exact runFn_frame _ _ _ _ _ _ _ _ hj
+    | addBond oi a b order skip =>
+      simp only [Op.target] at hj
+      simp only; split
+      · rfl
+      · exact runFn_frame _ _ _ _ _ _ _ _ hj
+    | delAtom oi n skip =>
+      simp only [Op.target] at hj
+      simp only; split
+      · rfl
+      · exact runFn_frame _ _ _ _ _ _ _ _ hj
+    | delBond oi a b skip =>
+      simp only [Op.target] at hj
+      simp only; split
+      · rfl
+      · exact runFn_frame _ _ _ _ _ _ _ _ hj
+    | remap oi mp =>
+      simp only [Op.target] at hj
+      simp only; split
+      · rfl
+      · exact runFn_frame _ _ _ _ _ _ _ _ hj
+    | copy oi kS kC =>
+      simp only; split
+      · rfl
+      · exact getElem?_append_lt _ _ _ hlt
+    | substructure oi atoms recalc =>
+      simp only [Op.target] at hj
+      simp only
+      split; · rfl
+      split; · rfl
+      split; · rfl
+      split; · rfl
+      have hj' : j ≠ w.objs.length := Nat.ne_of_lt hlt
+      split
+      · simp only
+        rw [runFn_frame _ _ _ _ _ _ _ _ hj', runFn_frame _ _ _ _ _ _ _ _ hj']
+        exact getElem?_append_lt _ _ _ hlt
+      · simp only
+        rw [runFn_frame _ _ _ _ _ _ _ _ hj']
+        exact getElem?_append_lt _ _ _ hlt
+    | union oi p rmp cp =>
+      simp only [Op.target] at hj
+      simp only
+      split; · rfl
+      split; · rfl
+      split; · rfl
+      split
+      · exact getElem?_append_lt _ _ _ hlt
+      · exact runFn_frame _ _ _ _ _ _ _ _ hj
+    | fixStructure oi r => simp only [Op.target] at hj; exact runFn_frame _ _ _ _ _ _ _ _ hj
+    | calcLabels oi => simp only [Op.target] at hj; exact runFn_frame _ _ _ _ _ _ _ _ hj
+    | fixStereo oi => simp only [Op.target] at hj; exact runFn_frame _ _ _ _ _ _ _ _ hj
+    | cleanStereo oi => simp only [Op.target] at hj; exact runFn_frame _ _ _ _ _ _ _ _ hj
+    | flush oi kS kC => simp only [Op.target] at hj; exact getElem?_setObj_ne w.vecs hj
+    | enter oi => simp only [Op.target] at hj; exact runFn_frame _ _ _ _ _ _ _ _ hj
+    | exitOk oi => simp only [Op.target] at hj; exact runFn_frame _ _ _ _ _ _ _ _ hj
+    | exitExc oi => simp only [Op.target] at hj; exact runFn_frame _ _ _ _ _ _ _ _ hj
+    | setCharge oi n c =>
+      simp only [Op.target] at hj
+      simp only
+      split; · rfl
+      split; · rfl
+      exact getElem?_setObj_ne w.vecs hj
+    | setRadical oi n r =>
+      simp only [Op.target] at hj
+      simp only
+      split; · rfl
+      exact getElem?_setObj_ne w.vecs hj
+    | setXY oi n x y =>
+      simp only
+      split <;> rfl
+    | setMeta oi k v => simp only [Op.target] at hj; exact getElem?_setObj_ne w.vecs hj
+    | read oi k => simp only [Op.target] at hj; exact getElem?_setObj_ne w.vecs hj
+
+/-- the abort path of an accepted table restores exactly the snapshot -/
+theorem exitExc_restores {T : Tables} (hT : TablesOK T = true) {w : World} {i : Nat} {o : Obj} {bk : Core} {obs : List String}
+    (hget : w.objs[i]? = some o) (hb : o.backup = some (some bk)) (herr : (step T w (.exitExc i) obs).err = none) :
+    ∃ o', (step T w (.exitExc i) obs).w.objs[i]? = some o' ∧ o'.toCore = bk ∧ o'.changed = some none ∧
+      o'.backup = some none := by
+  have hab := abort_of_tables hT
+  unfold abortOK at hab
+  unfold step at herr ⊢
+  simp only [Op.target, hget] at herr ⊢
+  unfold runFn at herr ⊢
+  cases hi : interp T { obs := obs } (expand T.fns expandFuel "MoleculeContainer.__exit__#exc" []) { o := o, vecs := w.vecs } with
+  | err c e => simp [hi] at herr
+  | ok c =>
+    simp only [hi]
+    refine ⟨c.o, getElem?_setObj_self _ hget, ?_⟩
+    exact abort_interp bk _ false false false _ c hab (fun _ => hb) (fun h => by cases h) (fun h => by cases h)
+      (fun h => by cases h) hi
+
+/-- a non-sharing `Element.copy` allocates Vector objects that did not exist before -/
+theorem copyXY_fresh (T : Tables) (h : T.elementCopySharesXY = false) (vecs : List (Int × Int)) (xy : List (Nat × Nat)) :
+    (∀ p ∈ (copyXY T vecs xy).1, vecs.length ≤ p.2) ∧ vecs.length ≤ (copyXY T vecs xy).2.length := by
+  unfold copyXY
+  simp only [h, if_false, Bool.false_eq_true]
+  suffices hs : ∀ (xy : List (Nat × Nat)) (acc : List (Nat × Nat) × List (Int × Int)),
+      (∀ p ∈ acc.1, vecs.length ≤ p.2) → vecs.length ≤ acc.2.length →
+      (∀ p ∈ (xy.foldl (fun acc p => (acc.1 ++ [(p.1, acc.2.length)], acc.2 ++ [vecs.getD p.2 (0, 0)])) acc).1, vecs.length ≤ p.2) ∧
+        vecs.length ≤ (xy.foldl (fun acc p => (acc.1 ++ [(p.1, acc.2.length)], acc.2 ++ [vecs.getD p.2 (0, 0)])) acc).2.length by
+    exact hs xy ([], vecs) (by simp) (Nat.le_refl _)
+  intro xy
+  induction xy with
+  | nil => intro acc h1 h2; exact ⟨h1, h2⟩
+  | cons q rest ih =>
+    intro acc h1 h2
+    simp only [List.foldl_cons]
+    apply ih
+    · intro p hp
+      simp only [List.mem_append, List.mem_singleton] at hp
+      rcases hp with hp | hp
+      · exact h1 p hp
+      · rw [hp]; exact h2
+    · simp only [List.length_append, List.length_singleton]; omega
+
+/-- moving an atom writes exactly one cell of the Vector heap: the one its own object points to -/
+theorem setXY_vecs (T : Tables) (w : World) (i n : Nat) (x y : Int) (obs : List String) (o : Obj) (a : Nat)
+    (hget : w.objs[i]? = some o) (ha : o.xy.lookup n = some a) :
+    (step T w (.setXY i n x y) obs).w.vecs = w.vecs.set a (x, y) ∧ (step T w (.setXY i n x y) obs).w.objs = w.objs := by
+  unfold step
+  simp only [Op.target, hget, ha]
+  simp
 end ChythonModel.Proofs.C13
